@@ -360,3 +360,30 @@ def check_arity(expand_macro, name):
         out.append(('raises.arity', f'{name} takes {nargs} code argument(s) but is expanded with {n}: {code}',
                     f'{kind} arity {n} for {nargs} accepted', dict(name=name, arity=n)))
     return out
+
+
+CODE_TEXT = {'SOME': '{ SOME }', 'DROP': '{ DROP }', 'UNIT': '{ UNIT }', 'T': '{ PUSH string "T" }', 'F': '{ PUSH string "F" }',
+             'T1': '{ DROP ; PUSH string "T" }', 'F1': '{ DROP ; PUSH string "F" }'}
+
+
+def check_parser(m2m, expand_macro, name):
+    """the parser (michelson_to_micheline) gives a macro occurrence exactly the expansion of expand_macro"""
+    out = []
+    kind, par, nargs = M.classify(name)
+    for label, annots, must in annotation_variants(name)[:2]:
+        codes = (stacks_for(name) or [((), (), ())])[0][2]
+        text = '{ ' + ' '.join([name] + list(annots) + [CODE_TEXT[c] for c in codes]) + ' }'
+        try:
+            want = [expand_macro(prim=name, annots=list(annots), args=[list(CODE[c][0]) for c in codes])]
+        except Exception:  # noqa   reported by check_name when it matters
+            continue
+        try:
+            got = m2m(text)
+        except Exception as e:  # noqa
+            out.append(('ensures.parser', f'{text}: parser raised {type(e).__name__}: {e}', f'{kind} annots={label} -> parser raises',
+                        dict(name=name, parser=True)))
+            continue
+        if got != want:
+            out.append(('ensures.parser', f'{text}: parser gives {got}, expand_macro {want}', f'{kind} annots={label} -> parser differs',
+                        dict(name=name, parser=True)))
+    return out
